@@ -217,7 +217,14 @@ func c18Value(text string, emit func(desc, input string), excluded func()) (stor
 	want := refValueClass(text)
 	var v store.Value
 	var err error
-	if pn := safe(func() { err = json.Unmarshal([]byte(text), &v) }); pn != "" {
+	// the input buffer is reused after the parse (as a decoder's read buffer is): the parsed value must not
+	// alias it (json.Unmarshaler: "must copy the JSON data if it wishes to retain the data after returning")
+	buf := []byte(text)
+	pn := safe(func() { err = json.Unmarshal(buf, &v) })
+	for i := range buf {
+		buf[i] = '#'
+	}
+	if pn != "" {
 		emit(fmt.Sprintf("store.Value parsing %q panicked: %s", text, pn), in)
 		return v, false
 	}
